@@ -164,6 +164,43 @@ Section C01.
 End C01.
 
 (* ====================================================================== *)
+(** * The pairing of labels and marginals established by fit (generated _fit_columns) *)
+Section FitPairing.
+  Variables label Col Dist Univ : Type.
+  Variable get_distribution_for_column : label -> Dist.
+  Variable fit_column : Col -> Dist -> label -> Univ.
+
+  Notation fit_one := (fun item : label * Col =>
+                         fit_column (snd item) (get_distribution_for_column (fst item)) (fst item)).
+
+  Lemma fit_columns_loop_spec : forall items cols univs,
+      gm_fit_columns_loop label Col Dist Univ get_distribution_for_column fit_column items cols univs =
+      (cols ++ map fst items, univs ++ map fit_one items).
+  Proof.
+    induction items as [|it tl IH]; intros cols univs; simpl.
+    - rewrite !app_nil_r. reflexivity.
+    - rewrite IH, <- !app_assoc. reflexivity.
+  Qed.
+
+  (** [C01_right_marginal_right_column], fit side: self.columns is the header of the training table
+      in order, self.univariates has the same length, and its j-th entry is the marginal fitted on
+      the j-th column (with the distribution configured for the j-th label) *)
+  Theorem C01_fit_pairing : forall (X : list (label * Col)),
+      let st := gm_fit_columns_state label Col Dist Univ get_distribution_for_column fit_column X in
+      fst st = map fst X /\ snd st = map fit_one X /\ length (snd st) = length (fst st) /\
+      forall j c col, nth_error X j = Some (c, col) ->
+                      nth_error (fst st) j = Some c /\
+                      nth_error (snd st) j = Some (fit_column col (get_distribution_for_column c) c).
+  Proof.
+    intros X st. subst st. unfold gm_fit_columns_state, gm_fit_columns.
+    rewrite fit_columns_loop_spec. simpl. repeat split.
+    - rewrite !map_length. reflexivity.
+    - rewrite nth_error_map, H. reflexivity.
+    - rewrite nth_error_map, H. reflexivity.
+  Qed.
+End FitPairing.
+
+(* ====================================================================== *)
 (** * Marginals and rank dependence (over R) *)
 Open Scope R_scope.
 
@@ -270,42 +307,51 @@ Close Scope R_scope.
 Print Assumptions C01_schema.
 Print Assumptions C01_no_missing.
 Print Assumptions C01_constant.
+Print Assumptions C01_fit_pairing.
 Print Assumptions C01_marginal_uniform.
 Print Assumptions C01_rank_dependence.
 Print Assumptions C01_sample_rank_dependence.
 
 (* ====================================================================== *)
-(** * evaluation instance used by the correspondence check: labels and cells of Z are nat tokens,
+(** * evaluation instance used by the correspondence check: labels and cells of Z are integer tokens,
       Phi is the identity on tokens, the j-th percent_point tags its argument with j; the draw
       oracle returns the rows it is given provided it is called with NpZeros d, covariance token 7
       and the requested size (otherwise an empty draw, which the comparison then exposes) *)
-Definition tok_gmodel (is_fitted : bool) (cols : list nat) : gmodel nat nat (nat * nat) nat :=
+Definition tok_gmodel (is_fitted : bool) (cols : list Z) : gmodel Z Z (nat * Z) nat :=
   {| g_fitted := is_fitted; g_columns := cols;
      g_univariates := map (fun j u => (j, u)) (seq 0 (length cols)); g_correlation := 7 |}.
 
-Definition tok_draw (d_expected : nat) (Z : list (list nat)) (means : means_arg) (c : nat) (n : nat)
-  : list (list nat) :=
+Definition tok_draw (d_expected : nat) (Zs : list (list Z)) (means : means_arg) (c : nat) (n : nat)
+  : list (list Z) :=
   match means with
-  | NpZeros d => if (d =? d_expected) && (c =? 7) && (n =? length Z) then Z else []
+  | NpZeros d => if (d =? d_expected) && (c =? 7) && (n =? length Zs) then Zs else []
   end.
 
-Definition c01_sample (b : bool) (cols : list nat) (Z : list (list nat)) (n : nat) :=
-  gm_sample nat nat nat (nat * nat) nat Nat.eqb (fun z => z) (tok_draw (length cols) Z) (tok_gmodel b cols) n.
+Definition c01_sample (b : bool) (cols : list Z) (Zs : list (list Z)) (n : nat) :=
+  gm_sample Z Z Z (nat * Z) nat Z.eqb (fun z => z) (tok_draw (length cols) Zs) (tok_gmodel b cols) n.
+
+(* _fit_columns on tokens: the univariate fitted for a column records (column, distribution, label) *)
+Definition c01_fit (X : list (Z * Z)) :=
+  gm_fit_columns_state Z Z Z (Z * Z * Z) (fun l => (l + 1000)%Z) (fun col dist l => (col, dist, l)) X.
 
 Definition show_counts (k : kendall_counts) : list Z := [@con k; @dis k; n0 k; n1 k; n2 k].
 Definition c01_kendall (xs ys : list Q) := show_counts (kendallQ xs ys).
 
 (* non-vacuity *)
 Example C01_demo_sample :
-  c01_sample true [10; 20; 30] [[1; 2; 3]; [4; 5; 6]] 2 =
-  SOk [(10, [(0, 1); (0, 4)]); (20, [(1, 2); (1, 5)]); (30, [(2, 3); (2, 6)])].
+  c01_sample true [10; 20; 30]%Z [[1; 2; 3]; [4; 5; 6]]%Z 2 =
+  SOk [(10%Z, [(0, 1%Z); (0, 4%Z)]); (20%Z, [(1, 2%Z); (1, 5%Z)]); (30%Z, [(2, 3%Z); (2, 6%Z)])].
+Proof. reflexivity. Qed.
+
+Example C01_demo_fit :
+  c01_fit [(10, 110); (20, 120)]%Z = ([10; 20], [(110, 1010, 10); (120, 1020, 20)])%Z.
 Proof. reflexivity. Qed.
 
 Example C01_demo_schema_applies :
-  exists out, c01_sample true [10; 20; 30] [[1; 2; 3]; [4; 5; 6]] 2 = SOk out /\ map fst out = [10; 20; 30].
+  exists out, c01_sample true [10; 20; 30]%Z [[1; 2; 3]; [4; 5; 6]]%Z 2 = SOk out /\ map fst out = [10; 20; 30]%Z.
 Proof.
-  destruct (C01_schema nat nat nat (nat * nat) nat Nat.eqb (fun a b => Nat.eqb_eq a b) (fun z => z)
-              (tok_draw 3 [[1; 2; 3]; [4; 5; 6]]) (tok_gmodel true [10; 20; 30]) 2) as [out [H1 [H2 _]]];
+  destruct (C01_schema Z Z Z (nat * Z) nat Z.eqb (fun a b => Z.eqb_eq a b) (fun z => z)
+              (tok_draw 3 [[1; 2; 3]; [4; 5; 6]]%Z) (tok_gmodel true [10; 20; 30]%Z) 2) as [out [H1 [H2 _]]];
     try reflexivity.
   - repeat constructor; simpl; intuition discriminate.
   - repeat constructor.
